@@ -117,6 +117,20 @@ func collConfig(r *rng, mode string) (Config, genOpts) {
 }
 
 func famColl(w *bufio.Writer, seed uint64, n, labels int, mode, replay string) error {
+	if mode == "script" {
+		// witness replay: -replay names a script (see parseScript); store-backed, fixed options
+		text, err := os.ReadFile(replay)
+		if err != nil {
+			return err
+		}
+		sc, err := parseScript(string(text))
+		if err != nil {
+			return err
+		}
+		cfg := Config{LL: "store", MMPn: 8, MMPd: 10, MaxPre: 6, Concern: 0, LevelMaxSegs: 2, LevelMult: 3, PctN: 65, PctD: 100, NoSync: true}
+		_, err = runCollCase(w, 0, seed, cfg, len(sc), genOpts{childPct: 45, mergeW: 20, script: sc})
+		return err
+	}
 	nerr := 0
 	hist := map[string]int{}
 	for i := 0; i < n; i++ {
